@@ -316,6 +316,7 @@ func (m *Model) updateMode(mode *traits.ElectricMode, opts ...resource.WriteOpti
 			return nil, ErrNormalModeExists
 		}
 	}
+	opts = keepModeID(mode.Id, opts)
 
 	msg, err := m.modes.Update(mode.Id, mode, opts...)
 	if err != nil {
@@ -337,6 +338,17 @@ func updatesNormal(opts ...resource.WriteOption) bool {
 		}
 	}
 	return false
+}
+
+// keepModeID returns opts preceded by an interceptor that gives the updated mode the id it is stored under.
+// Write options can select fields so that the id is not carried over to the stored mode (resource.WithCreateIfAbsent
+// with an update mask that leaves out id, a reset mask naming id): ChangeActiveMode would then activate a mode whose id
+// names no mode and DeleteMode would delete the active mode.
+// The interceptor comes first, so that a resource.InterceptAfter passed by the caller takes its place.
+func keepModeID(id string, opts []resource.WriteOption) []resource.WriteOption {
+	return append([]resource.WriteOption{resource.InterceptAfter(func(_, new proto.Message) {
+		new.(*traits.ElectricMode).Id = id
+	})}, opts...)
 }
 
 // PullModes subscribes to changes to modes. Creation, modification or deletion of a mode on this device will send
